@@ -220,6 +220,14 @@ class RelativeSequence(AbstractSequence):
             remaining_capacity = capacity
 
             while remaining_capacity >= 0:
+                # Messages deferred to the next sequence must not be lost if the input ends on the boundary
+                if len(working_memory) == 0 and len(next_sequence_queue) > 0:
+                    if len(current_sequence._messages) > 0:
+                        split_sequences.append(current_sequence)
+                    current_sequence = next_sequence
+                    working_memory[0:0] = next_sequence_queue
+                    break
+
                 # Check if end-of-sequence was reached prematurely
                 if len(working_memory) == 0:
                     if len(current_sequence._messages) > 0:
